@@ -2360,6 +2360,70 @@ func c05FifthRound(ctx *Ctx, r *Report) {
 				"Unspec renames the `spec` object of a schema and rewrites the references found in that schema only: `from: library.spec` in package dashboard keeps pointing to library.spec after library.spec became library.library — a dangling reference")
 		}
 	}
+	// (d) RemoveIntersections: the object that replaces a removed one can be removed too (an alias of an alias). Every
+	// method that takes a replacement out of objectsToRemove (binds the value) follows the chain: it has a loop that looks
+	// the replacement's own name up again.
+	if named := ctx.LookupType("internal/ast/compiler", "RemoveIntersections"); named == nil {
+		r.Undecided("anchor lost: compiler.RemoveIntersections")
+	} else {
+		cp := ctx.Pkg("internal/ast/compiler")
+		info := cp.TypesInfo
+		readers := 0
+		for _, fd := range methodsOf(ctx, named) {
+			var bound []*ast.Ident
+			ast.Inspect(fd.Body, func(m ast.Node) bool {
+				as, ok := m.(*ast.AssignStmt)
+				if !ok || len(as.Lhs) != 2 || len(as.Rhs) != 1 {
+					return true
+				}
+				ix, ok := ast.Unparen(as.Rhs[0]).(*ast.IndexExpr)
+				if !ok || !strings.HasSuffix(exprString(ix.X), ".objectsToRemove") {
+					return true
+				}
+				if id, ok := as.Lhs[0].(*ast.Ident); ok && id.Name != "_" {
+					bound = append(bound, id)
+				}
+				return true
+			})
+			if len(bound) == 0 {
+				continue
+			}
+			readers++
+			follows := false
+			ast.Inspect(fd.Body, func(m ast.Node) bool {
+				var body *ast.BlockStmt
+				switch x := m.(type) {
+				case *ast.ForStmt:
+					body = x.Body
+				case *ast.RangeStmt:
+					body = x.Body
+				}
+				if body == nil {
+					return true
+				}
+				ast.Inspect(body, func(k ast.Node) bool {
+					if ix, ok := k.(*ast.IndexExpr); ok && strings.HasSuffix(exprString(ix.X), ".objectsToRemove") {
+						for _, b := range bound {
+							if sel, ok := ast.Unparen(ix.Index).(*ast.SelectorExpr); ok && sel.Sel.Name == "Name" {
+								if id, ok := ast.Unparen(sel.X).(*ast.Ident); ok && objOf(info, id) == objOf(info, b) {
+									follows = true
+								}
+							}
+						}
+					}
+					return true
+				})
+				return true
+			})
+			fobj, _ := info.Defs[fd.Name].(*types.Func)
+			r.Check(follows, "traverse/replacement-chain-followed", ctx.FuncName(fobj)+" takes a replacement out of objectsToRemove", fd.Pos(), "the replacement's own name is looked up again until an object that stays",
+				ctx.FuncName(fobj)+" redirects to the object recorded for the removed one without asking whether that object is removed too: `#Variable: {…}; #Alias: #Variable; #Other: #Alias; Root: {v: #Variable}` ends with Root.v = ref Alias while only Other and Root remain (Java chain)")
+		}
+		if readers == 0 {
+			r.Undecided("anchor changed: no method of RemoveIntersections takes a replacement out of objectsToRemove")
+		}
+		n++
+	}
 	r.Count("hunted clauses of the reference rules (5th round)", n)
-	r.Floor("hunted clauses of the reference rules (5th round)", 3)
+	r.Floor("hunted clauses of the reference rules (5th round)", 4)
 }
